@@ -25,6 +25,7 @@ type callSpec struct {
 	Ctx     string `json:"ctx"`   // bg | fwd
 	Deps    []int  `json:"deps"`
 	Guarded bool   `json:"guarded"`
+	Wrap    []bool `json:"wrap"` // per mention: name a plain function as mg.F(f) instead of f (the same dependency)
 }
 
 type resultSpec struct {
@@ -43,6 +44,9 @@ type nodeSpec struct {
 type rootSpec struct {
 	Ctx   string     `json:"ctx"` // tag | bg
 	Calls []callSpec `json:"calls"`
+	// the director cancels this root's context after it has opened that many gates (0 = never):
+	// a cancelled context must not make a Deps-family call return before its dependencies ended
+	CancelAfter int `json:"cancel_after"`
 }
 
 type program struct {
@@ -79,6 +83,12 @@ var (
 )
 
 type tagKey struct{}
+
+var (
+	cancelMu sync.Mutex
+	cancels  = map[int][]context.CancelFunc{}
+	opened   int
+)
 
 func touch() { atomic.StoreInt64(&lastAct, time.Now().UnixNano()) }
 
@@ -117,9 +127,12 @@ func keyOf(kind, slot int, args []interface{}) string {
 	return fmt.Sprintf("%d/%d/%v", kind, slot, args)
 }
 
-func depValue(n int) interface{} {
+func depValue(n int, wrap bool) interface{} {
 	nd := prog.Nodes[n]
 	f := pool[nd.Kind][nd.Slot]
+	if wrap && nd.Kind < 6 {
+		return mg.F(f)
+	}
 	switch nd.Kind {
 	case 6:
 		return mg.F(f, int(nd.Args[0].(float64)), nd.Args[1].(string))
@@ -149,7 +162,7 @@ func runCalls(tname string, gbase int, calls []callSpec, ctx context.Context) (p
 		gate(gbase + pc)
 		deps := make([]interface{}, len(c.Deps))
 		for i, d := range c.Deps {
-			deps[i] = depValue(d)
+			deps[i] = depValue(d, i < len(c.Wrap) && c.Wrap[i])
 		}
 		cctx := ctx
 		if cctx == nil {
@@ -281,6 +294,11 @@ func main() {
 				c, cancel := context.WithCancel(context.WithValue(context.Background(), tagKey{}, i))
 				defer cancel()
 				ctx = c
+				if r.CancelAfter > 0 {
+					cancelMu.Lock()
+					cancels[r.CancelAfter] = append(cancels[r.CancelAfter], cancel)
+					cancelMu.Unlock()
+				}
 			}
 			runCalls(fmt.Sprintf("r%d", i), rootBase[i], r.Calls, ctx)
 			gate(rootBase[i] + len(r.Calls))
@@ -326,6 +344,12 @@ loop:
 		if ch != nil {
 			touch()
 			close(ch)
+			opened++
+			cancelMu.Lock()
+			for _, cancel := range cancels[opened] {
+				cancel()
+			}
+			cancelMu.Unlock()
 		} else {
 			time.Sleep(quiet / 4)
 		}
